@@ -41,6 +41,7 @@ type catchEvent struct {
 	awaitingActions []chan IAction
 	once            sync.Once
 	running         atomic.Bool
+	stopped         chan struct{} // closed when the node's goroutine has ended
 	satisfier       *logic.CatchEventSatisfier
 }
 
@@ -50,6 +51,7 @@ func newCatchEvent(wr *wiring, element *schema.CatchEvent) (evt *catchEvent, err
 		element:         element,
 		mch:             make(chan imessage, len(wr.incoming)*2+1),
 		activated:       atomic.Bool{},
+		stopped:         make(chan struct{}),
 		awaitingActions: make([]chan IAction, 0),
 		satisfier:       logic.NewCatchEventSatisfier(element, wr.eventDefinitionInstanceBuilder),
 	}
@@ -63,6 +65,7 @@ func newCatchEvent(wr *wiring, element *schema.CatchEvent) (evt *catchEvent, err
 
 func (evt *catchEvent) run(ctx context.Context, sender tracing.ISenderHandle) {
 	defer sender.Done()
+	defer close(evt.stopped)
 	defer evt.running.Store(false)
 
 	for {
@@ -103,7 +106,11 @@ func (evt *catchEvent) ConsumeEvent(ev event.IEvent) (result event.ConsumptionRe
 		result = event.Consumed
 		return
 	}
-	evt.mch <- processEventMessage{event: ev}
+	// (the goroutine may end, on cancellation, between the check above and this send)
+	select {
+	case evt.mch <- processEventMessage{event: ev}:
+	case <-evt.stopped:
+	}
 	result = event.Consumed
 	return
 }
